@@ -152,8 +152,19 @@ static void case_spaces(Rng& rng, uint64_t index)
 {
 	unsigned steps = (index % 5 == 0) ? (unsigned) rng.irange(0, 3) : (unsigned) rng.irange(2, 2000);
 	double a = rng.mag(1e-6, 1e6), b = rng.mag(1e-6, 1e6);
+	if(index % 4 == 1)
+	{
+		// small- and large-valued quantities (cross sections of 1e-45, energies of 1e19): the whole range scaled by an exact power of two, and ranges
+		// starting at zero, so that the width is far below (or above) any absolute threshold
+		double sc = std::ldexp(1.0, rng.coin() ? -rng.irange(40, 160) : rng.irange(40, 160));
+		a *= sc, b *= sc;
+		if(rng.coin(0.2))
+			a = 0.0;
+	}
 	if(rng.coin(0.1))
 		b = a;
+	if(a == 0.0 && b == 0.0)
+		b = 1.0;
 	set_params(J().d("min", a).d("max", b).i("steps", steps));
 	hash_param(a), hash_param(b), hash_param_u(steps);
 	if(steps >= 2 && a != b)
@@ -187,7 +198,7 @@ static void case_spaces(Rng& rng, uint64_t index)
 			judge("linear-space-equally-spaced", worst2, 16 * ulp(scale), [&] { return J().d("step", (double) h).d("worst_deviation", worst2); });
 		}
 	}
-	double la = std::fabs(a), lb = std::fabs(b);
+	double la = a == 0.0 ? std::fabs(b) * 0x1p-20 : std::fabs(a), lb = std::fabs(b);	  // a logarithmic grid cannot start at zero
 	std::vector<double> lg = Log_Space(la, lb, steps);
 	if(steps < 2 || la == lb)
 		require("log-space-degenerate-request-returns-min", lg.size() == 1 && same_bits(lg[0], la), [&] { return J().vec("Log_Space", lg); });
@@ -308,7 +319,30 @@ static void case_lists(Rng& rng, uint64_t index)
 	switch(index % 3)
 	{
 		case 0: list_checks<int>(rng, [](Rng& r) { return r.irange(-3, 3); }, "int"); break;
-		case 1: list_checks<double>(rng, [](Rng& r) { return r.coin(0.5) ? (double) r.irange(-2, 2) : r.normal(); }, "double"); break;
+		case 1: {
+			list_checks<double>(rng, [](Rng& r) { return r.coin(0.5) ? (double) r.irange(-2, 2) : r.normal(); }, "double");
+			// equality of floating-point lists is by value: zeros of either sign are equal, a NaN equals nothing (seeded change C19-r3m2 compared the bytes)
+			int n = rng.irange(1, 10);
+			std::vector<double> a(n), b;
+			for(auto& x : a)
+				x = rng.coin(0.4) ? (rng.coin() ? 0.0 : -0.0) : (double) rng.irange(-2, 2);
+			b = a;
+			for(auto& x : b)
+				if(x == 0.0 && rng.coin())
+					x = -x;
+			auto zj = [&] { return J().vec("a", a).vec("b", b); };
+			require("lists-equal-definition", Lists_Equal(a, b) == (a == b), zj);
+			std::vector<std::vector<double>> A2 = {a, b}, B2 = {b, a};
+			require("nested-lists-equal-definition", Lists_Equal(A2, B2) == (A2 == B2), zj);
+			if(rng.coin(0.3))
+			{
+				std::vector<double> c = a;
+				c[rng.below(c.size())] = std::nan("");
+				std::vector<double> d = c;
+				require("lists-equal-definition", Lists_Equal(c, d) == (c == d), [&] { return J().vec("a", c).vec("b", d); });
+			}
+			break;
+		}
 		default:
 			list_checks<std::string>(rng, [](Rng& r) {
 				static const char* w[] = {"", "a", "b", "ab", "abc", "x y"};
